@@ -114,6 +114,23 @@ def run(ctx):
     pf = pat(lambda f: f.qual == "nitro::lang::hash" and f.params and (f.params[0].get("type") or "").startswith("const std::pair<"))
     if ctx.anchor("R16.3", "hash(pair)", pf is not None):
         txt = [fmt(e["expr"]) for _, _, e in pf.roots()]
+        # the member hashes may be taken into const locals first (user code runs before the seed is touched): read through them
+        consts = {}
+        for _, _, e in pf.roots():
+            x = e["expr"]
+            if x.get("k") == "decl" and len(x.get("vars", [])) == 1:
+                v = x["vars"][0]
+                if (v.get("type") or "").startswith("const ") and v.get("init") is not None and not (v.get("type") or "").rstrip().endswith("&"):
+                    consts[v["name"]] = (fmt(e["expr"]), fmt(ir.unwrap(v["init"])))
+        if consts:
+            txt2 = []
+            for t0 in txt:
+                if any(t0 == d for d, _ in consts.values()):
+                    continue
+                for nm0, (_, init0) in consts.items():
+                    t0 = re.sub(r"(?<![\w.])%s(?![\w(])" % re.escape(nm0), init0, t0)
+                txt2.append(t0)
+            txt = txt2
         p = pf.params[0]["name"]
         ok = len(txt) == 3 and re.fullmatch(r"std::size_t seed = hash\(%s\.first\)" % p, txt[0]) and txt[1] == "hash_combine_impl(seed, hash(%s.second))" % p and txt[2] == "return seed"
         ctx.check(bool(ok), "R16.3", pf, "pair-uses-both-members-in-order", "hash(pair) is %s" % txt, pf)
